@@ -559,8 +559,13 @@ class FDAI:
                 return None
         else:
             if closureish or (cb is None and res is None):
-                # unknown code may run a closure that captured anything
-                st = {k: v for k, v in st.items() if k[0][0] == 'l' and not self._borrowed(body, k[0][1])}
+                # unknown code may run a closure: it can write what the closure captured by `&mut`
+                caps = self._closure_mut_captures(body, args) if closureish else None
+                if caps is None:
+                    st = {k: v for k, v in st.items() if k[0][0] == 'l' and not self._borrowed(body, k[0][1])}
+                else:
+                    for tgt in caps:
+                        self.kill(st, tgt)
             for a in args:
                 if is_place_op(a) and a[1][1] == []:
                     ty = body.locals[a[1][0]]['ty']
@@ -571,6 +576,39 @@ class FDAI:
         if ret is not None:
             st[dest] = ret
         return st
+
+    def _closure_mut_captures(self, body, args):
+        """targets of the `&mut` captures of closure-typed arguments (None if a closure value cannot be
+        traced to its construction)"""
+        out = []
+        for a in args:
+            if not (is_place_op(a) and '{closure' in body.locals[a[1][0]]['ty']):
+                continue
+            l = a[1][0]
+            d = self.single_def(body, l)
+            hops = 0
+            while d is not None and d[2] == 'a' and d[4][0] == 'use' and is_place_op(d[4][1]) and d[4][1][1][1] == [] and hops < 4:
+                d = self.single_def(body, d[4][1][1][0])
+                hops += 1
+            if d is None or d[2] != 'a' or d[4][0] != 'agg' or d[4][1].get('k') != 'closure':
+                if body.locals[l]['ty'].startswith('&'):
+                    t = body.ref_target(l)
+                    if t is not None and t[0][0] == 'l':
+                        d = self.single_def(body, t[0][1])
+                        if d is not None and d[2] == 'a' and d[4][0] == 'agg' and d[4][1].get('k') == 'closure':
+                            pass
+                        else:
+                            return None
+                    else:
+                        return None
+                else:
+                    return None
+            for o in d[4][2]:
+                if is_place_op(o) and o[1][1] == []:
+                    ty = body.locals[o[1][0]]['ty']
+                    if ty.startswith('&mut'):
+                        out.append(body.ref_target(o[1][0]) or (('d', o[1][0]), ()))
+        return out
 
     def _borrowed(self, body, l):
         key = ('borrowed', )
